@@ -213,6 +213,9 @@ func New(cfg world.Cfg, r *rand.Rand, so SeedOpt) (*Sim, error) {
 	}
 	for i := 0; i < so.Accounts; i++ {
 		pid := fmt.Sprintf("user%d@site%d.test", i, i)
+		if i%2 == 1 {
+			pid = fmt.Sprintf("User%d@Site%d.test", i, i) // identifiers are case-sensitive byte strings to the library
+		}
 		if i < len(so.PIDs) {
 			pid = so.PIDs[i]
 		}
